@@ -53,7 +53,7 @@ CHECKS = {
    text="Every ordered pair of distinct lattice points (n=2: angles; n=3,4: spheres) in both conformal models: ideal endpoints lightlike and Klein-collinear, circle through the endpoints orthogonal to the boundary, the counter-clockwise arc sampled at 9 parameters lies on the hyperbolic segment; straight-line limits report a non-finite/huge radius; composite segment arrays equal their units; all horospheres and horosphere arcs; all (k+1)-subsets of the ideal alphabet as subspace bases."),
  "C15": dict(engine="P", design="5/C15",
    technique="bounded-exhaustive enumeration of spacelike lattice normals x layouts, walls given by ideal bases, non-reflections, Coxeter reflections and conjugates of standard isometries (single and composite), against the closed-form reflection and an orbit-iteration oracle",
-   text="All lattice normals of {-1,-0.4,0,0.5,1.2}^(n+1) with Minkowski norm > 0.2 (n=2,3; n=4 sub-lattice/thorough full) plus generic ones: reflection is the closed-form involution, fixes the wall, from_reflection returns the wall; non-reflections are rejected; conjugates of rotations/loxodromics/parabolics by origin_to of every lattice point: fixed points fixed, in the closed ball, attracting end first; arrays of isometries equal their units. One open finding (F12) is reported as KNOWN-FINDING."),
+   text="All lattice normals of {-1,-0.4,0,0.5,1.2}^(n+1) with Minkowski norm > 0.2 (n=2,3; n=4 sub-lattice/thorough full) plus generic ones: reflection is the closed-form involution, fixes the wall, from_reflection returns the wall; non-reflections are rejected; conjugates of rotations/loxodromics/parabolics by origin_to of every lattice point: fixed points fixed, in the closed ball, attracting end first; arrays of isometries equal their units."),
  "C16": dict(engine="P", design="5/C16",
    technique="bounded-exhaustive enumeration of dyadic (Gaussian-)rational coordinate products x dimension x chart x layout x rescaling, complete small alphabets of linear maps/translations/normals, all transverse subspace pairs (exact rank), integer-conjugated diagonal matrices",
    text="Dimension 1..5, every chart, row/column layout, real and complex fields: chart slot exactly 1, exact round trip under rescaling, outside-chart reported iff the chart coordinate is exactly zero (incl. purely imaginary and tiny non-zero values); affine_linear_map / affine_translation / hyperplane_coordinate_transform act in the chart as the oracle for every alphabet element; Subspace.intersect lies in both with the right dimension for every transverse pair, elementwise and pairwise; eigenvector/diagonalize on exact eigen-data."),
